@@ -75,6 +75,11 @@ POSC_STEPS = [
     ("cat", "c1", {"quantity_type": "length", "valid_units": ["s"]}), ("unit", "brand new type", "metres?", "m", 2), ("base", "length", "x", "ft"),
     ("cat", "depth", {"quantity_type": "time", "override": True, "min_value": "lo", "default_value": "d"}), ("cat", "c1", {"from_category": "depth", "max_value": "hi", "default_value": "d"}),
     ("cat", "liquid volume", {"quantity_type": "volume"}),
+    # a legacy-spelled unit of ANOTHER quantity type among the valid units; units whose symbol merely CONTAINS a legacy spelling
+    ("cat", "c1", {"quantity_type": "length", "valid_units": ["lbmole"]}), ("cat", "c1", {"quantity_type": "length", "valid_units": ["m", "1000ft3/d"]}),
+    ("cat", "c1", {"quantity_type": "length", "default_unit": "Ns/m"}),
+    ("unit", "force per velocity", "kilonewton seconds per metre", "kNs/m", 1000), ("unit", "amount of substance", "kilogram moles", "kgmole", 1000),
+    ("unit", "volume flow rate", "my thousand cubic feet per day", "my1000ft3/d", 3),
 ]
 
 
@@ -368,6 +373,19 @@ def run(cfg, V):
             entry["model_info"] = (m["qt"], m["valid_units"], m["default_unit"]) if m else None
             entry["limits"] = (i.default_value, i.min_value, i.max_value, i.is_min_exclusive, i.is_max_exclusive)
         if acc and step[0] in ("base", "unit"):
+            # "every registered unit can be used to build a valid Scalar": the unit just registered, under every category of its quantity type
+            with pushed(db):
+                for c in [c for c in db.IterCategories() if db.GetCategoryQuantityType(c) == step[1]][:6]:
+                    vu = db.GetCategoryInfo(c).valid_units
+                    try:
+                        s_ = Scalar(V["x"], step[3], c)
+                        if s_.GetUnit() != step[3] or s_.GetQuantityType() != step[1]:
+                            entry["bad"].append("Scalar(x, %r, %r) reports unit %r / type %r" % (step[3], c, s_.GetUnit(), s_.GetQuantityType()))
+                        ObtainQuantity(step[3], c), db.CheckQuantityTypeUnit(step[1], step[3]), db.GetInfo(step[1], step[3])
+                    except (core.Abort, core.HarnessError, core.Infeasible):
+                        raise
+                    except Exception as e:  # noqa
+                        entry["bad"].append("the unit %r just registered cannot build a Scalar of category %r: %s" % (step[3], c, type(e).__name__))
             entry["units"] = {qt: [i.unit for i in infos] for qt, infos in db.quantity_types.items()} if cfg["pre"] != "posc" else None
             entry["model_units"] = {qt: list(us) for qt, us in model.qts.items()} if cfg["pre"] != "posc" else None
         log.append(entry)
@@ -393,7 +411,7 @@ def props(cfg, T, obs):
         cond = z3.BoolVal(cond) if isinstance(cond, bool) else cond
         if e["accepted"]:
             P.append(("step %d: accepted only when the reference model accepts" % n, cond))
-            P.append(("step %d: registry well-formed and the new category usable after an accepted step" % n, e["bad"] == []))
+            P.append(("step %d: registry well-formed and the new category / unit usable after an accepted step" % n, e["bad"] == []))
             if "info" in e:
                 P.append(("step %d: stored quantity type / valid units / default unit as the model predicts" % n, e["info"] == e["model_info"]))
                 dv, mn, mx, emin, emax = e["limits"]
